@@ -95,7 +95,7 @@ def curvature_check(out, sig, model, N, k, om, r2_of_t, tol):
 # --------------------------------------------------------------------------- Gaussian / FJC / ring
 
 def chain_spec(max_dom):
-    n = st.one_of(st.integers(1, 50), st.integers(2, 50), st.sampled_from([1, 2, 3]), st.floats(0.4, 4.0).map(lambda e: int(10 ** e)))
+    n = st.one_of(st.integers(2, 50), st.integers(2, 50), st.sampled_from([2, 3]), st.floats(0.4, 4.0).map(lambda e: int(10 ** e)))
     # 'typed': how the numeric parameters are passed (python floats / ints, numpy scalars, float chain length) and whether k is
     # handed over as a strided view of a longer array -- none of this may change a value
     return st.fixed_dictionaries({'model': st.sampled_from(['Gaussian', 'FreelyJointedChain', 'FJC', 'GaussianRing']),
@@ -173,6 +173,21 @@ class Chains(Sub):
                 model, spec.get('typed'), 'strided view' if buf is not None else 'contiguous array'))
         if buf is not None and (not np.array_equal(buf[0::2], k) or np.any(buf[1::2] != -7.0)):
             out.fail(sig + fam + '/modifies-k', 'calculate(k) wrote into the buffer behind a strided view of k')
+        # write-protected k, and integer-typed k (wavenumbers that happen to be whole numbers)
+        kro = k.copy()
+        kro.setflags(write=False)
+        ki = np.arange(1, 6, dtype=np.int64)
+        try:
+            with np.errstate(all='ignore'):
+                om_r = np.asarray(make_chain(model, N, ln).calculate(kro), dtype=float)
+                om_i = np.asarray(make_chain(model, N, ln).calculate(ki), dtype=float)
+                om_f = np.asarray(make_chain(model, N, ln).calculate(ki.astype(float)), dtype=float)
+            if om_r.shape != om.shape or not np.array_equal(om_r, om, equal_nan=True):
+                out.fail(sig + fam + '/depends-on-argument-type', '%s: a write-protected k array gives different values' % model)
+            if om_i.shape != om_f.shape or not np.array_equal(om_i, om_f, equal_nan=True):
+                out.fail(sig + fam + '/depends-on-argument-type', '%s: integer-typed k gives different values than the same wavenumbers as floats' % model)
+        except (ValueError, TypeError) as exc:
+            out.fail(sig + fam + '/typed-input-raises', '%s(N=%r, len=%r) raised %s: %s for a write-protected / integer-typed k array' % (model, N, ln, type(exc).__name__, exc))
         out.label('typed=' + spec.get('typed', 'plain'), 'k-view' if buf is not None else 'k-contiguous')
         out.label('model=' + model, 'k=' + spec['k']['kind'], 'N>1000' if N > 1000 else ('N>50' if N > 50 else 'N<=50'))
         if k.tobytes() != kb:
